@@ -76,7 +76,11 @@ class FormulaParser(Parser):
                   | expression DIV expression
                   | expression AMP expression
         """
-        if p[2] == '&':
+        if p[2] == '&' and isinstance(p[1], error.XLError):
+            p[0] = p[1]
+        elif p[2] == '&' and isinstance(p[3], error.XLError):
+            p[0] = p[3]
+        elif p[2] == '&':
             # a blank joins as nothing
             p[0] = ('' if p[1] is None else str(p[1])) + ('' if p[3] is None else str(p[3]))
         else:
@@ -95,7 +99,7 @@ class FormulaParser(Parser):
 
     def p_expression_uminus(self, p):
         'expression : MINUS expression %prec UMINUS'
-        p[0] = -p[2]
+        p[0] = p[2] if isinstance(p[2], error.XLError) else -p[2]
 
     def p_expression_number(self, p):
         """
